@@ -149,6 +149,18 @@ def cases(tier, seed):
                             cs.append({'op': 'where', 'types': tdesc,
                                        'operands': [{'recipe': r1, 'default': d1, 'elem': 'num'}, {'recipe': rc, 'default': dc, 'elem': 'bool'},
                                                     {'recipe': r2, 'default': d2, 'elem': 'num'}]})
+            # where with a broadcast condition: fewer dimensions than t and u (and, for rank 2, a size-1 leading dimension)
+            if len(shape) >= 1:
+                rcs = patterns.typed_recipes(types[1:], max_phys=6, layouts=('contig', 'expand')) if len(shape) > 1 else [{'psizes': [], 'vaxes': [], 'layout': 'contig'}]
+                if len(shape) > 1:
+                    rcs = rcs + patterns.typed_recipes([['n', 1]] + list(types[1:]), max_phys=6, layouts=('contig',))[:3]
+                trip = list(itertools.product(rs_all, rcs, rs_all))
+                trip = trip[:2] + rng.sample(trip[2:], min(max(len(trip) - 2, 0), bcap))
+                for r1, rc, r2 in trip:
+                    for d1, dc, d2 in rng.sample(list(itertools.product([0.0, 'inf', 2.5], [False, True], [0.0, 1.0, 'nan'])), 3):
+                        cs.append({'op': 'where', 'types': tdesc, 'broadcast_condition': True,
+                                   'operands': [{'recipe': r1, 'default': d1, 'elem': 'num'}, {'recipe': rc, 'default': dc, 'elem': 'bool'},
+                                                {'recipe': r2, 'default': d2, 'elem': 'num'}]})
             # reshape / view
             rs = rs_all
             sel = rs if len(rs) <= ucap else rs[:1] + rng.sample(rs[1:], ucap - 1)
